@@ -223,6 +223,28 @@ def special(acc, tier):
             if x.result is not None and "sig" in x.result.values:
                 acc.violation({"symptom": "emit-name-in-values", "family": "emit"}, {"kind": "emit", "select": sel, "runner": runner, "program": p}, "emit-only output returned as a value")
             acc.key(("emit", runner, repr(sel)))
+    # the same with the producer CACHED on a serialising backend: a restored sentinel must still be recognised
+    import shutil
+    import tempfile
+
+    from hypergraph.cache import DiskCache
+
+    for runner in ("sync", "async"):
+        d = tempfile.mkdtemp(prefix="c16_", dir="/dev/shm" if __import__("os").path.isdir("/dev/shm") else None)
+        try:
+            p = T.prog([T.fn("prod", ["e0"], ["a0"], emit=["sig"], cache=True), T.fn("w1", ["e0"], ["w0"], wait_for=["sig"])])
+            dc = DiskCache(d)
+            for round_ in (0, 1):
+                x = execute(p, ins, runner=runner, h=H(), cache=dc)
+                acc.evaluations += 1
+                for sig, msg in scope_violations(x, declared={"a0", "sig", "w0"}, effective=None, active_nodes=None, om="ignore", unproduced_selected=None, inputs=ins):
+                    acc.violation({**sig, "family": "emit-cached"}, {"kind": "emit-cached", "runner": runner, "round": round_, "program": p}, msg)
+                if x.result is not None and "sig" in x.result.values:
+                    acc.violation({"symptom": "emit-name-in-values", "family": "emit-cached"}, {"kind": "emit-cached", "runner": runner, "round": round_, "program": p}, f"run {round_} with a disk-cached emit producer returned the signal name as a value")
+            dc._cache.close()
+            acc.key(("emit-cached", runner))
+        finally:
+            shutil.rmtree(d, ignore_errors=True)
     # paused result with a selection; failed result with graph-level selection
     for sel in ("unset", ["a0"], ["ans"], ["b0"]):
         for gsel in (None, ["b0"]):
